@@ -18,7 +18,7 @@ MANIFEST = {
              'Equality "as numbers" beyond real-arithmetic identity (summation order) is out of scope.'),
 }
 EXPLANATION = 'Whole-step SVN: argument terms at the consist call, accumulator relations with the same dt, getter terms.'
-RULES = ['C11-1.handoff', 'C11-2.accum', 'C11-3.dt', 'C11-4.getters', 'C11-5.loco']
+RULES = ['C11-1.handoff', 'C11-2.accum', 'C11-3.dt', 'C11-4.getters', 'C11-5.loco', 'C11-6.rollup']
 ASSUMPTIONS = ['identities over the reals']
 
 SIMS = ['SetSpeedTrainSim::solve_step', 'SpeedLimitTrainSim::solve_step']
@@ -30,6 +30,10 @@ def run(ctx):
     # the power a locomotive reports is what its drivetrain delivered (so that the locomotives' powers sum to the consist's)
     from .C01 import loco_pwr_out_arms
     loco_pwr_out_arms(ctx, 'C11-5.loco')
+    # consist-level fuel / battery power are sums over the locomotives of the per-powertrain arms (shared with C01-5)
+    from .C01 import rollups
+    from .common import RuleProxy
+    rollups(RuleProxy(ctx, {'C01-5.rollup': 'C11-6.rollup'}))
     eng = engine(ctx)
     n = 0
     for fid in SIMS:
